@@ -1017,6 +1017,20 @@ fn monitor(op: &IOp, pre: &Snap, post: &Snap, o: &Outcome, m: &mut Mon) -> Vec<(
             fail("actor-disappeared", format!("actor {}", i));
         }
     }
+    // CREATE / CREATE2 consume a nonce whether or not the child's constructor succeeds
+    if let (IOp::Invoke { target, cmd: Cmd::Fac { flags, .. }, .. }, 0) = (op, o.code) {
+        if let (Some(e0), Some(e1)) = (pre.actors.get(target).and_then(|a| a.evm.as_ref()), post.actors.get(target).and_then(|a| a.evm.as_ref())) {
+            if e0.rt == 2 && e0.tomb.is_none() && flags & 4 == 0 {
+                let attempts = (if flags & 16 == 0 { 1 } else { 0 }) + (if flags & 2 != 0 { 1 } else { 0 });
+                if e1.nonce < e0.nonce + attempts {
+                    fail("nonce-not-consumed", format!("factory {}: nonce {} -> {} after {} creation attempts", target, e0.nonce, e1.nonce, attempts));
+                }
+                if flags & 16 != 0 && flags & 2 == 0 && e1.nonce != e0.nonce {
+                    fail("nonce-consumed-without-funds", format!("factory {}: nonce {} -> {}", target, e0.nonce, e1.nonce));
+                }
+            }
+        }
+    }
     if o.code == 0 {
         match (op, &o.ret) {
             (IOp::Exec { from, code, .. }, RetObs::Exec(id, _)) => {
